@@ -15,8 +15,7 @@ Theorem C03_new : forall (ops : list op) (s : st) (rc : list diff), run_new ops 
 Proof. exact c03_new_lemma. Qed.
 Print Assumptions C03_new.
 
-(* LEGACY backend: the same statement.  A revert the legacy code cannot perform (C04) leaves the node
-   unchanged, so reads stay right. *)
+(* LEGACY backend: the same statement. *)
 Theorem C03_old : forall (ops : list op) (s : st) (rc : list diff), run_old ops = (s, rc) ->
   (forall q n, n < blen rc -> read_old s q n = lookup (truth_at rc n) q) /\
   (forall q, read_head s q = lookup (truth rc) q).
@@ -66,8 +65,9 @@ Theorem C03_revert_restores_new : forall s d, Inv s -> Hist_new s -> Valid s d -
 Proof. exact revert_store_new. Qed.
 Print Assumptions C03_revert_restores_new.
 
-Theorem C03_revert_restores_old : forall s d, Inv s -> Valid s d ->
-  no_noop_zero_write s d = true \/ s_next s = 0 -> revert_old (store_old s d) d = Some s.
+(* legacy: no guard is needed since juno commit 1b89e86 (a zero write to an absent slot logs nothing; the
+   reverse diff then takes the head value) *)
+Theorem C03_revert_restores_old : forall s d, Inv s -> Valid s d -> revert_old (store_old s d) d = Some s.
 Proof. exact revert_store_old. Qed.
 Print Assumptions C03_revert_restores_old.
 
@@ -95,14 +95,14 @@ Example ex_new_reads :
   read_new (fst (run_new ops_ex)) (QClass 100) 1 = Found 11 /\
   read_new (fst (run_new ops_ex)) (QDecl 11) 0 = NotFound.
 Proof. vm_compute. repeat split. Qed.
-(* legacy: dA writes zero to the never-written slot 2 at genesis (revert of genesis still works), and the
-   second revert of ops_ex2 fails on the no-op zero write of block 1 *)
+(* legacy: a block whose only content is a zero write to a never-written slot is stored and reverted *)
 Definition dZ := mkDiff [] [] [] [((100, 2), 0)] [].
-Example ex_old_revert_fails : snd (run_old [Store dA; Store dZ; Revert]) = [dZ; dA].
+Example ex_old_revert_noop_zero : run_old [Store dA; Store dZ; Revert] = run_old [Store dA].
 Proof. vm_compute. reflexivity. Qed.
-Example ex_old_reads_still_right :
-  read_old (fst (run_old [Store dA; Store dZ; Revert])) (QSlot 100 2) 0 = Found 0 /\
-  read_old (fst (run_old [Store dA; Store dZ; Revert])) (QSlot 100 1) 1 = Found 5.
+Example ex_old_reads_with_noop_zero :
+  read_old (fst (run_old [Store dA; Store dZ])) (QSlot 100 2) 0 = Found 0 /\
+  read_old (fst (run_old [Store dA; Store dZ])) (QSlot 100 2) 1 = Found 0 /\
+  read_old (fst (run_old [Store dA; Store dZ])) (QSlot 100 1) 1 = Found 5.
 Proof. vm_compute. repeat split. Qed.
 Example ex_old_chain : snd (run_old ops_ex) = [dB; dA].
 Proof. vm_compute. reflexivity. Qed.
